@@ -695,17 +695,19 @@ def format_duration(t: float, pluralize=False) -> str:
 
     """
 
-    # First decide the base units
-    if t >= 1.0:
+    # First decide the base units. The comparison is tolerant (consistent with the check for a single unit below) because
+    # a timescale that went through a spreadsheet keeps ~16 significant digits, so 1/52 can come back marginally below 1/52
+    tol = 1 - 1e-5
+    if t >= 1.0 * tol:
         base_scale = 1
         timescale = "year"
-    elif t >= 1 / 12:
+    elif t >= tol / 12:
         base_scale = 1 / 12
         timescale = "month"
-    elif t >= 1 / 26:
+    elif t >= tol / 26:
         base_scale = 1 / 26
         timescale = "fortnight"
-    elif t >= 1 / 52:
+    elif t >= tol / 52:
         base_scale = 1 / 52
         timescale = "week"
     else:
